@@ -41,16 +41,30 @@ def isSafeChar (c : Char) : Bool := isSafeNat c.toNat
 /-- `_find_sh_unsafe(arg) is None` : the regex is one negated character class -/
 def allSafe (a : Str) : Bool := a.all isSafeChar
 
-/-- `arg.replace("'", "'\"'\"'")` -/
-def replSq : Str → Str
+/-- `arg.replace("'", splice)` -/
+def replSqWith (splice : Str) : Str → Str
   | [] => []
-  | c :: cs => if c = sq then sq :: dq :: sq :: dq :: sq :: replSq cs else c :: replSq cs
+  | c :: cs => if c = sq then splice ++ replSqWith splice cs else c :: replSqWith splice cs
+
+/-- one iteration of the `for arg in args` loop of `args2sh`, with the text that stands for an embedded
+    single quote (`splice`) and the decision "leave this argument bare" (`bare`) as parameters -/
+def shQuoteWith (bare : Str → Bool) (splice : Str) (a : Str) : Str :=
+  if a.isEmpty then [sq, sq]
+  else if bare a then a
+  else sq :: (replSqWith splice a ++ [sq])
+
+def args2shWith (bare : Str → Bool) (splice : Str) (args : List Str) : Str :=
+  join [' '] (args.map (shQuoteWith bare splice))
+
+/-- the replacement text of `arg.replace("'", …)` in the source, regenerated on every run by evaluating
+    `args2sh(["a'b"])` (`'"'"'` in the code as it is) -/
+def sqSplice : Str := Gen.shSqSplice.map Char.ofNat
+
+/-- `arg.replace("'", "'\"'\"'")` -/
+def replSq (a : Str) : Str := replSqWith sqSplice a
 
 /-- one iteration of the `for arg in args` loop of `args2sh` -/
-def shQuote (a : Str) : Str :=
-  if a.isEmpty then [sq, sq]
-  else if allSafe a then a
-  else sq :: (replSq a ++ [sq])
+def shQuote (a : Str) : Str := shQuoteWith allSafe sqSplice a
 
 /-- `args2sh(args)` (the `sep` parameter is ignored by the code: `' '.join`) -/
 def args2sh (args : List Str) : Str := join [' '] (args.map shQuote)
@@ -59,7 +73,8 @@ def args2sh (args : List Str) : Str := join [' '] (args.map shQuote)
 
 def bs (n : Nat) : Str := List.replicate n bsl
 
-/-- `(" " in arg) or ("\t" in arg) or not arg` -/
+/-- `(" " in arg) or ("\t" in arg) or not arg`: the MINIMAL needs-quotes predicate (what the MS C runtime
+    rules require); the code's own predicate is `cmdNeedQuote` below -/
 def needQuote (a : Str) : Bool := a.contains ' ' || a.contains '\t' || a.isEmpty
 
 /-- the `for c in arg` loop plus the two "remaining backslashes" statements and the closing
@@ -71,8 +86,23 @@ def cmdGo (q : Bool) : Nat → Str → Str
     else if c = dq then bs (n * 2) ++ bsl :: dq :: cmdGo q 0 cs
     else bs n ++ c :: cmdGo q 0 cs
 
-def cmdArg (a : Str) : Str :=
-  if needQuote a then dq :: cmdGo true 0 a else cmdGo false 0 a
+def inRanges (rs : List (Nat × Nat)) (n : Nat) : Bool := rs.any fun r => r.1 ≤ n && n ≤ r.2
+
+/-- a character whose presence makes `args2cmd` wrap the argument in double quotes: the class is
+    regenerated on every run by evaluating `args2cmd([c])` on every code point (blank and tab in the code
+    as it is) -/
+def cmdQuoteChar (c : Char) : Bool := inRanges Gen.cmdQuoteRanges c.toNat
+
+/-- the code's `needquote` -/
+def cmdNeedQuote (a : Str) : Bool := a.isEmpty || a.any cmdQuoteChar
+
+/-- `args2cmd`'s per-argument text with the decision "wrap this argument in double quotes" left open: `qp` -/
+def cmdArgQ (qp : Str → Bool) (a : Str) : Str :=
+  if qp a then dq :: cmdGo true 0 a else cmdGo false 0 a
+
+def args2cmdQ (qp : Str → Bool) (args : List Str) : Str := join [' '] (args.map (cmdArgQ qp))
+
+def cmdArg (a : Str) : Str := cmdArgQ cmdNeedQuote a
 
 /-- the outer loop: `if result: result.append(' ')` then the argument -/
 def cmdLoop : Str → List Str → Str
@@ -346,29 +376,6 @@ def styleOf (style : Str) (win32 : Bool) : Option ShellStyle :=
   else if st = ['c', 'm', 'd'] then some .cmd
   else none
 
-/-! ## quoting with an arbitrary "needs quotes" predicate (args2cmd) and an arbitrary splice (args2sh) -/
-
-/-- `args2cmd` with the decision "wrap this argument in double quotes" left open: `qp` -/
-def cmdArgQ (qp : Str → Bool) (a : Str) : Str :=
-  if qp a then dq :: cmdGo true 0 a else cmdGo false 0 a
-
-def args2cmdQ (qp : Str → Bool) (args : List Str) : Str := join [' '] (args.map (cmdArgQ qp))
-
-/-- `arg.replace("'", splice)` -/
-def replSqWith (splice : Str) : Str → Str
-  | [] => []
-  | c :: cs => if c = sq then splice ++ replSqWith splice cs else c :: replSqWith splice cs
-
-/-- `args2sh` with the text that stands for an embedded single quote left open: `splice`, and the
-    decision "leave this argument bare" left open: `bare` -/
-def shQuoteWith (bare : Str → Bool) (splice : Str) (a : Str) : Str :=
-  if a.isEmpty then [sq, sq]
-  else if bare a then a
-  else sq :: (replSqWith splice a ++ [sq])
-
-def args2shWith (bare : Str → Bool) (splice : Str) (args : List Str) : Str :=
-  join [' '] (args.map (shQuoteWith bare splice))
-
 /-! ## pieces: a syntactic class of shell words that is always read back literally
 
 A shell word written as a sequence of pieces - a single-quoted part, a backslash-escaped character,
@@ -406,5 +413,24 @@ def ShPiece.value : ShPiece → Str
 def wordRender (w : List ShPiece) : Str := (w.map ShPiece.render).flatten
 def wordValue (w : List ShPiece) : Str := (w.map ShPiece.value).flatten
 def wordOk (w : List ShPiece) : Bool := !w.isEmpty && w.all ShPiece.ok
+
+/-- the decidable side condition on a splice: it is `'` + (pieces denoting one single quote) + `'`,
+    i.e. it closes the quoted part, writes a single quote in some valid way, and reopens -/
+def spliceOk (splice : Str) (ps : List ShPiece) : Bool :=
+  (ps.all ShPiece.ok) && wordValue ps == [sq] && splice == sq :: (wordRender ps ++ [sq])
+
+/-- the decomposition of the regenerated splice into pieces proposed by the translator
+    (kind 0 = `'…'`, 1 = `\c`, 2 = `"…"`, other = bare run); CHECKED by `Proofs.spliceTable_ok` -/
+def splicePieces : List ShPiece := Gen.shSqSplicePieces.map fun p =>
+  let s : Str := p.2.map Char.ofNat
+  match p.1 with
+  | 0 => .sgl s
+  | 1 => .esc (s.headD nul)
+  | 2 => .dbl s
+  | _ => .bare s
+
+/-- the defaults of `delim` / `range_delim` in the signatures of the integer-list functions (regenerated) -/
+def defaultDelim : Char := Char.ofNat Gen.intDelim
+def defaultRangeDelim : Char := Char.ofNat Gen.intRangeDelim
 
 end C14
